@@ -6,6 +6,7 @@ import (
 	"context"
 	"errors"
 	"fmt"
+	"math"
 	"net"
 	"os"
 	"strings"
@@ -204,7 +205,14 @@ func newBridge() adapter {
 		}
 	}()
 	return &connAdapter{"test.Bridge", c0, func(p []byte) error { _, err := c1.Write(p); return err },
-		func() { close(stop); wg.Wait(); _ = c0.Close(); _ = c1.Close(); br.Tick(); br.Tick() }}
+		func() {
+			close(stop)
+			wg.Wait()
+			_ = c0.Close()
+			_ = c1.Close()
+			br.Tick()
+			br.Tick()
+		}}
 }
 
 // ---- history and oracle -------------------------------------------------------
@@ -216,7 +224,7 @@ const (
 	stIdle
 	stInject
 	stRead
-	stWait // wait for the outstanding read (bounded)
+	stWait  // wait for the outstanding read (bounded)
 	stStray // data from a source the connection discards (connected sockets only)
 )
 
@@ -351,6 +359,9 @@ func runHistory(a adapter, hist []step, labels func(string)) string {
 				d = time.Now().Add(st.d)
 			case "far":
 				d = time.Now().Add(10 * time.Second)
+			case "farthest":
+				// as far away as a time.Time or a time.Duration can say
+				d = []time.Time{time.Date(9999, 12, 31, 23, 59, 59, 0, time.UTC), time.Unix(1<<40, 0), time.Now().Add(time.Duration(math.MaxInt64))}[int(st.d)%3]
 			}
 			if !d.IsZero() {
 				lastBySetter[b2i(st.both)] = d
@@ -504,12 +515,16 @@ func genHistory(t *rapid.T) ([]step, map[string]bool) {
 	for i := 0; i < n; i++ {
 		switch k := rapid.IntRange(0, 99).Draw(t, "k"); {
 		case k < 30:
-			dl := rapid.SampledFrom([]string{"zero", "past", "near", "near", "near", "far"}).Draw(t, "dl")
+			dl := rapid.SampledFrom([]string{"zero", "past", "near", "near", "near", "far", "farthest"}).Draw(t, "dl")
 			st := step{kind: stSet, dl: dl, both: rapid.IntRange(0, 3).Draw(t, "both") == 0}
+			if dl == "farthest" {
+				st.d = time.Duration(rapid.IntRange(0, 2).Draw(t, "which"))
+				feat["farthest-deadline"] = true
+			}
 			if dl == "near" {
 				st.d = time.Duration(rapid.IntRange(8, 30).Draw(t, "ms")) * time.Millisecond
 			}
-			if expired && (dl == "far" || dl == "zero" || dl == "near") {
+			if expired && (dl == "far" || dl == "farthest" || dl == "zero" || dl == "near") {
 				feat["reset-after-expiry"] = true
 			}
 			if dl == "past" {
@@ -557,7 +572,7 @@ func genHistory(t *rapid.T) ([]step, map[string]bool) {
 	return h, feat
 }
 
-const ruleC10 = "rapid-drawn history of 3..12 steps run in parallel on six adapters (packetio.Buffer, dpipe end, udp listener connection on a real loopback socket, vnet UDPConn behind a router, a connected (dialed) vnet UDPConn that also receives 'stray' datagrams from a third host, test.Bridge endpoint with a ticking goroutine): SetReadDeadline or (a quarter of the calls, where the type has it) SetDeadline with zero | 1 s in the past | +8..30 ms | +10 s | the very value applied before (after the other setter replaced it), idle 0..40 ms, supply one message, start a read (at most one outstanding), optionally wait for it; real clock, executed under GODEBUG=asynctimerchan=1 and =0; oracle from monotonic timestamps: a timeout is legal only if a non-zero deadline in force during the call had passed when it returned; data is illegal once a read has timed out under the same unchanged deadline (or the deadline passed > 300 ms before the call); an outstanding read is released within 2 s of its unchanged deadline, or by data when none is pending; non-trivial = a deadline expired while no read was pending and was then extended or cleared before the next read, or two reads after one expiry; distinct by hash of the history"
+const ruleC10 = "rapid-drawn history of 3..12 steps run in parallel on six adapters (packetio.Buffer, dpipe end, udp listener connection on a real loopback socket, vnet UDPConn behind a router, a connected (dialed) vnet UDPConn that also receives 'stray' datagrams from a third host, test.Bridge endpoint with a ticking goroutine): SetReadDeadline or (a quarter of the calls, where the type has it) SetDeadline with zero | 1 s in the past | +8..30 ms | +10 s | the year 9999, Unix(2^40), now + the largest Duration | the very value applied before (after the other setter replaced it), idle 0..40 ms, supply one message, start a read (at most one outstanding), optionally wait for it; real clock, executed under GODEBUG=asynctimerchan=1 and =0; oracle from monotonic timestamps: a timeout is legal only if a non-zero deadline in force during the call had passed when it returned; data is illegal once a read has timed out under the same unchanged deadline (or the deadline passed > 300 ms before the call); an outstanding read is released within 2 s of its unchanged deadline, or by data when none is pending; non-trivial = a deadline expired while no read was pending and was then extended or cleared before the next read, or two reads after one expiry; distinct by hash of the history"
 
 func TestC10Deadlines(t *testing.T) {
 	r := ev.New("C10", "deadlines/"+os.Getenv("GODEBUG"), ruleC10)
